@@ -2,6 +2,7 @@ package main
 
 import (
 	"fmt"
+	"go/constant"
 	"go/token"
 	"go/types"
 	"sort"
@@ -815,12 +816,7 @@ func ruleNullCodecs(c *Ctx) {
 		// Omit
 		fo := p.SSA.FuncValue(ct.Methods["Omit"].Fn)
 		name := ssaFuncName(fo)
-		okOmit := false
-		for _, b := range fo.Blocks {
-			if r, ok := b.Instrs[len(b.Instrs)-1].(*ssa.Return); ok && len(r.Results) == 1 {
-				okOmit = dependsOnlyOnValid(r.Results[0])
-			}
-		}
+		okOmit := omitIsNotValid(fo)
 		c.Oblige("T.null.omit", okOmit, fo.Pos(), name, "Omit == !Valid",
 			"a null value is absent exactly when it is invalid: Omit must be the negation of the Valid flag and depend on nothing else (a valid zero stays present)", nil)
 		// Read
@@ -1025,5 +1021,50 @@ func clearLoopCoversNewLen(f *ssa.Function, header *ssa.BasicBlock, hdr ssa.Valu
 			return true
 		}
 	}
+	// the whole array: its capacity is never less than a length it is given
+	if ld, ok := bound.(*ssa.UnOp); ok && ld.Op == token.MUL {
+		if fa, ok := ld.X.(*ssa.FieldAddr); ok && fa.X == hdr && fieldName(fa) == "Cap" {
+			return true
+		}
+	}
 	return false
+}
+
+// omitIsNotValid: decided under forced values - with Valid forced to true
+// every return that can be taken yields false, with Valid forced to false true,
+// whether written !n.Valid, n.Valid == false or as an if.
+func omitIsNotValid(fo *ssa.Function) bool {
+	okOmit := true
+	for _, forced := range []bool{true, false} {
+		forced := forced
+		fe := feasibleUnder(fo, func(v ssa.Value) (constant.Value, bool) {
+			switch x := v.(type) {
+			case *ssa.Field:
+				if st, ok := x.X.Type().Underlying().(*types.Struct); ok && st.Field(x.Field).Name() == "Valid" {
+					return constant.MakeBool(forced), true
+				}
+			case *ssa.UnOp:
+				if fa, ok := x.X.(*ssa.FieldAddr); ok && x.Op == token.MUL && fieldName(fa) == "Valid" {
+					return constant.MakeBool(forced), true
+				}
+			}
+			return nil, false
+		})
+		nret := 0
+		for _, b := range fo.Blocks {
+			r, ok := b.Instrs[len(b.Instrs)-1].(*ssa.Return)
+			if !ok || len(r.Results) != 1 || !fe.reach[b] {
+				continue
+			}
+			nret++
+			val, known := fe.eval(r.Results[0], 0)
+			if !known || val.Kind() != constant.Bool || constant.BoolVal(val) != !forced {
+				okOmit = false
+			}
+		}
+		if nret == 0 || !fe.sawLeaf {
+			okOmit = false
+		}
+	}
+	return okOmit
 }
